@@ -26,7 +26,9 @@ def do_mean(pixels, z_pixels, num_zones, nodata, z_nodata, out_dtype=np.float32)
         out_dtype: datatype
     """
     t, nr, nc = pixels.shape
-    result = np.zeros((t, num_zones, 2), dtype=out_dtype)
+    # accumulate in double precision: float32 sums and counts stop being exact
+    # at 2**24, the result is cast to out_dtype at the end
+    result = np.zeros((t, num_zones, 2), dtype=np.float64)
 
     # 0 mean
     # 1 valids
@@ -46,4 +48,4 @@ def do_mean(pixels, z_pixels, num_zones, nodata, z_nodata, out_dtype=np.float32)
             else:
                 result[tix, idx, 0] = np.nan
 
-    return result
+    return result.astype(out_dtype)
